@@ -361,6 +361,59 @@ func comparePlain(got, want []plainCue, unit func(int64) int64, tolerance int64)
 	return ""
 }
 
+// conversion model (Model/Conv.v): the bytes the library produces for SubRip -> WebVTT and WebVTT -> SubRip are compared
+// with the composition read model ; conversion ; write model
+func suiteConvertModel(R *runner, r *rng) {
+	N := 150
+	if R.tier == "thorough" {
+		N = 3000
+	}
+	for c := 0; c < N; c++ {
+		cues := randSrtCues(r, 5, c%3 != 0)
+		doc, _ := renderSrt(r, cues)
+		o := &obs{Suite: "convsv", Group: "convert.model.srt->vtt", Input: (&enc{}).str(doc).String(), NT: len(cues) > 0, Human: map[string]interface{}{"source": doc}}
+		var buf bytes.Buffer
+		var s *astisub.Subtitles
+		var err error
+		p := safely(func() {
+			if s, err = astisub.ReadFromSRT(strings.NewReader(doc)); err == nil {
+				err = s.WriteToWebVTT(&buf)
+			}
+		})
+		switch {
+		case p != "":
+			o.Impl, o.Oracle, o.Sig = "2", "SubRip -> WebVTT panicked: "+p, "convert-model-panic"
+		case err != nil:
+			o.Impl = "1"
+		default:
+			o.Impl = (&enc{}).n(0).bytes(buf.Bytes()).String()
+		}
+		R.add(o)
+	}
+	for c := 0; c < N; c++ {
+		d := randVttDoc(r, c%2 == 0)
+		doc := renderVtt(r, d)
+		o := &obs{Suite: "convvs", Group: "convert.model.vtt->srt", Input: (&enc{}).str(doc).String(), NT: len(d.Cues) > 0, Human: map[string]interface{}{"source": doc}}
+		var buf bytes.Buffer
+		var s *astisub.Subtitles
+		var err error
+		p := safely(func() {
+			if s, err = astisub.ReadFromWebVTT(strings.NewReader(doc)); err == nil {
+				err = s.WriteToSRT(&buf)
+			}
+		})
+		switch {
+		case p != "":
+			o.Impl, o.Oracle, o.Sig = "2", "WebVTT -> SubRip panicked: "+p, "convert-model-panic"
+		case err != nil:
+			o.Impl = "1"
+		default:
+			o.Impl = (&enc{}).n(0).bytes(buf.Bytes()).String()
+		}
+		R.add(o)
+	}
+}
+
 func suiteConvert(R *runner, r *rng) {
 	R.rule("conversion: all (source, destination) pairs in {srt,ssa,ass,stl,ttml,vtt,ts} x {srt,ssa,ass,stl,ttml,vtt}; sources rendered by the harness's own encoders from ground-truth cue lists (1..5 cues, 1..2 lines, Latin text incl. accented letters; times at the source's resolution) plus styled SRT documents and repository samples; extension in mixed case; every third repetition a crafted list in which a cue with another text starts on a fragment boundary of a longer cue listed after it (then fragment + unfragment), every third a list of 14..24 cues sharing few start instants in shuffled order (then order / fragment / unfragment); 0..4 operations (sync, fragment, unfragment, merge, optimize, order, linear correction) with random parameters through the library, 0..1 operation through the built CLI; the destination file is re-read through the library; oracle: same cues in the same order, times truncated to the destination's unit, same text without white space; unsupported extension -> ErrInvalidExtension, empty list -> ErrNoSubtitlesToWrite; non-trivial = destination format differs from the source format or an operation is applied")
 	dir, _ := os.MkdirTemp("", "verif-conv")
